@@ -269,7 +269,9 @@ class World:
             if isinstance(x, SymObj) and hasattr(x, "py_len"):
                 return x.py_len(I)
             if isinstance(x, Stream):
-                raise OutOfSubset("len of filtered stream (materialize first)")
+                if not x.guards:
+                    return ZV(x.length, "int")  # an unfiltered comprehension over a sequence has the sequence's length
+                return self.materialize(I, x).py_len(I)  # typed worlds give the filtered list its list semantics
             raise OutOfSubset(f"len({x!r})")
 
         @reg("isinstance")
